@@ -64,8 +64,8 @@ func (q *entriesQueue) Len() int {
 }
 
 func (q *entriesQueue) Less(i int, j int) bool {
-	d1 := squaredEuclideanDistance(q.entries[i].box, q.origin)
-	d2 := squaredEuclideanDistance(q.entries[j].box, q.origin)
+	d1 := euclideanDistance(q.entries[i].box, q.origin)
+	d2 := euclideanDistance(q.entries[j].box, q.origin)
 	return d1 < d2
 }
 
